@@ -1,5 +1,6 @@
 import PEval.Lemmas.Manager
 import PEval.Lemmas.ManagerSort
+import PEval.Properties.C13Tracking
 /-!
 # C13 — scene scores pool the frame results; frame evaluation is history-independent
 
@@ -8,6 +9,10 @@ operations `add` / `scene` / `lookup`) and hold for EVERY list of operations, ev
 every single-frame evaluation `sem` (the abstract `evalDet`/`evalTrack` of the model: the detection
 part of a frame evaluation is a function of that frame's ground truth, estimates and configurations;
 the tracking part may in addition read the detection part of the immediately preceding stored result).
+
+The tracking scores are concrete in the extended machine `PEval.ManagerTracking`; the theorems about it
+(per-frame CLEAR against the last stored frame, scene CLEAR over the pooled history, scene counts = sums of
+the per-frame counts, renaming invariance) are in `Properties/C13Tracking.lean`, imported here.
 
 The tie to /repo is the lock-step correspondence run (`harness/props/c13.py`): random operation
 sequences on one real `PerceptionEvaluationManager`, with `sem` instantiated by what a FRESH real
